@@ -3,7 +3,8 @@
 (* (batch length, matcher workers, channel capacity) classes, seeded random draws from the full product).         *)
 EXTENDS ScannerFanout, Json
 
-CONSTANTS Sizes, Starts, Ends, Batches, Caps, Aligns, NMs, Bufs, NFs
+CONSTANTS Sizes, Starts, Ends, Batches, Caps, Aligns, NMs, Bufs, NFs,
+          LawBatches   \* the batch sizes of the exhaustive law check (the cover and the random draws use Batches)
 
 \* the log: kinds in pairs, parse classes with period 5, subject families in triples
 MCKind(i) == IF (i \div 2) % 2 = 1 THEN "precert" ELSE "x509"
@@ -30,7 +31,7 @@ Case(size, start, end, batch, p, nf, nm, buf, matcher, ponly) ==
 
 \* exhaustive: everything the expected outcome depends on (the laws do not mention nf / nm / buf)
 LawCases == {Case(sz, st, en, b, p, 1, 1, 0, mt, po) :
-               sz \in Sizes, st \in Starts, en \in Ends, b \in Batches, p \in Pols, mt \in MatcherNames, po \in BOOLEAN}
+               sz \in Sizes, st \in Starts, en \in Ends, b \in LawBatches, p \in Pols, mt \in MatcherNames, po \in BOOLEAN}
 
 \* a cover: every batch length 1..Max(Batches) (and the shorter last batch of the range) against every number of
 \* matcher workers, rendezvous and buffered, with a matcher that selects every entry / every entry that parses
@@ -44,8 +45,7 @@ IsCover(x) == /\ x.size = WorldSize /\ x.start = 0 /\ x.end = 0 /\ x.pol = "full
               /\ x.nf = 1 + ((x.batch + x.nm) % 3) /\ x.matcher = (IF x.buf = 0 THEN "every" ELSE "all")
 ASSUME \A x \in CoverCases : IsCover(x)
 
-MCCases == LawCases \cup CoverCases
-\* (the same initial states, without building and sorting the union)
+\* the initial states LawCases \cup CoverCases, without building and sorting the union (the constant Cases stays empty)
 MCInit == (c \in LawCases \/ c \in CoverCases) /\ done = FALSE
 
 LawsHold == done => Laws     \* (on the successor: checked by the parallel workers)
@@ -56,17 +56,19 @@ NoCase == Case(-1, 0, 0, 1, Full, 1, 1, 0, "none", FALSE)
 Pick(seq) == seq[RandomElement(1..Len(seq))]
 SimSizes == <<WorldSize, WorldSize, WorldSize, WorldSize - 1, WorldSize - 5, 13, 6, 1>>
 SimMatchers == <<"every", "every", "all", "all", "regex", "even", "odd", "none">>
-PolSeq == <<Full, Full, [pol |-> "half", k |-> 0],
-            [pol |-> "cap", k |-> RandomElement(Caps)], [pol |-> "cap", k |-> RandomElement(Caps)],
-            [pol |-> "align", k |-> RandomElement(Aligns)]>>
+Half == [pol |-> "half", k |-> 0]
 
 SimInit == c = NoCase /\ done = FALSE
+\* (the random parameters are bound once per step; a definition without parameters would be evaluated once per run)
 Draw == /\ c.size = -1
-        /\ c' = Case(Pick(SimSizes), RandomElement(Starts), RandomElement(Ends), RandomElement(Batches), Pick(PolSeq),
-                     RandomElement(NFs), RandomElement(NMs), RandomElement(Bufs), Pick(SimMatchers), RandomElement(1..4) = 1)
+        /\ \E ck \in {RandomElement(Caps)}, ak \in {RandomElement(Aligns)} :
+             LET pols == <<Full, Full, Half, [pol |-> "cap", k |-> ck], [pol |-> "cap", k |-> ck], [pol |-> "align", k |-> ak]>> IN
+             c' = Case(Pick(SimSizes), RandomElement(Starts), RandomElement(Ends), RandomElement(Batches), Pick(pols),
+                       RandomElement(NFs), RandomElement(NMs), RandomElement(Bufs), Pick(SimMatchers), RandomElement(1..4) = 1)
         /\ UNCHANGED done
 SimNext == Draw \/ (c.size # -1 /\ Finish)
 
-SimLawsHold == (c.size # -1 /\ done) => Laws
+\* (ReplyLaw depends on the policy and the batch size only and is checked exhaustively)
+SimLawsHold == (c.size # -1 /\ done) => CaseOK(c) /\ PartitionLaw(c) /\ FanoutLaw(c)
 ExportAll == (done /\ c.size # -1) => PrintT(<<"CASE", ToJson(ExportOf(c))>>)
 =============================================================================
